@@ -160,6 +160,10 @@ func ReplyFor(f Fault) (int, string, string) {
 		return 330 + f.K, "intermediate reply by script", ""
 	}
 	esc := fmt.Sprintf("%s.5.%d", d, f.K)
+	if f.Shape == "xlead" { // an enhanced status code of the other class than the reply code
+		esc = fmt.Sprintf("%s.5.%d", map[string]string{"4": "5", "5": "4"}[d], f.K)
+		return code, esc + " rejected by script", esc
+	}
 	switch f.Shape {
 	case "lead", "multi", "multiterse":
 		return code, esc + " rejected by script", esc
